@@ -212,8 +212,8 @@ class C33(Prop):
         "the empty string is a possible password value (settings.backup_encryption_password is str | None, filled from a Secret-backed environment variable); "
         "the oracle does not prescribe whether it encrypts, only that an archive declaring encrypted=true does not hand out secrets without the password",
     ]
-    budgets = {"quick": 650, "thorough": 5000}
-    wall = {"quick": 45.0, "thorough": 540.0}
+    budgets = {"quick": 650, "thorough": 3000}
+    wall = {"quick": 45.0, "thorough": 480.0}
     ENC_ONE_IN = 13
 
     # ------------------------------------------------------------------ setup
